@@ -265,6 +265,18 @@ ro!(V_U16, 10, 12);
 ro!(V_BOOL, 8, 10);
 ro!(V_SB, 14, 16);
 ro!(V_A3, 12, 14);
+
+/// One-element form of `V_SB` (2 bytes of length + padding, one 6-byte element): cheap enough
+/// for C19's quick tier; the only quick shape with padding between a FlatVec's length field and
+/// its constrained elements (DATA_OFFSET > L::SIZE).
+#[allow(non_snake_case)]
+pub mod V_SB_q {
+    #[kani::proof]
+    #[kani::unwind(10)]
+    fn errpos() {
+        super::errpos::<crate::shapes::V_SB, 8>()
+    }
+}
 ro!(V_P, 10, 12);
 ro!(STR8, 5, 7);
 ro!(STR16, 6, 8);
